@@ -97,6 +97,7 @@ def main(tier):
     chk.rule("PRIOR", "the start tree size is the predecessor's; the block's own metadata is only a "
                       "fallback", floor=1)
     chk.rule("ONCE", "output indices are assigned by one enumeration per transaction", floor=2)
+    chk.rule("SCOPE", "a scanning key's ivk, nk and reported scope are one scope's", floor=3)
     chk.rule("control", "positive controls", floor=1)
 
     ps_rules.ps1(chk, FILES)
@@ -113,6 +114,7 @@ def main(tier):
 
     guards(chk, w)
     order(chk, w)
+    scope_coherence(chk, w)
     prior_first(chk, w)
     index_once(chk, w)
     pf(chk, w)
@@ -243,6 +245,39 @@ def guards(chk, w):
                         if ("%s_tree_position" % tag in txt or "%s_final_tree_size" % tag in txt) and \
                                 "%s_commitment_tree_size" % tag in txt and rets <= {"variant:Err"}:
                             pools.add(tag)
+        # ... and each comparison is made whenever chain metadata is present: what decides whether it
+        # runs is only the presence of the metadata and the earlier comparisons having passed
+        import guards as G
+        cmp_blocks = {}
+        for bi, blk in enumerate(f.body.blocks):
+            for s in blk.stmts:
+                if s.kind == "=" and s.rv.kind == "bin" and s.rv.op in ("Ne", "Eq") and not s.place.proj:
+                    txt = " ".join(defuse.show(du.origin(a)) for a in s.rv.ops)
+                    if "_commitment_tree_size" in txt:
+                        cmp_blocks[s.place.local] = (bi, txt)
+        extra = []
+        for loc_, (bi, txt) in sorted(cmp_blocks.items()):
+            for sw, v, _tb in G.edge_conditions(f.body, bi):
+                d = f.body.blocks[sw].term.discr
+                o = du.origin(d)
+                r = du.root_local(d.place) if d.kind in ("copy", "move") else None
+                if r and len(r) == 2 and r[1] in cmp_blocks:
+                    continue            # an earlier comparison of the family
+                if o[0] == "disc" and defuse.strip_refs(o[1])[0] in ("arg", "field"):
+                    continue            # chain metadata present
+                tsw = f.body.blocks[sw].term
+                others = [tb2 for v2, tb2 in list(tsw.arms) + [("else", tsw.otherwise)] if tb2 is not None and v2 != v]
+                rets = set(f.body.exits())
+                if not any(rets & f.body.reachable(o2) for o2 in others):
+                    continue            # the other way out of this test never returns (assertion)
+                extra.append("%s only under `%s`" % (txt[:60], defuse.show(o)[:80]))
+        if extra:
+            chk.fail("GUARD", "end-consistency/conditional", "an end-of-block tree-size comparison is skipped under a "
+                     "further condition: %s — a mismatch can be accepted silently" % "; ".join(sorted(set(extra))[:3]),
+                     f.span.loc())
+        elif len(cmp_blocks) >= 3:
+            chk.ok("GUARD", "the %d end-of-block tree-size comparisons run whenever chain metadata is present"
+                   % len(cmp_blocks))
         if pools == {"sapling", "orchard", "ironwood"}:
             chk.ok("GUARD", "end-of-block tree-size mismatch is an error for all three pools",
                    sample=True)
@@ -251,6 +286,59 @@ def guards(chk, w):
                      "chain metadata only for %s" % sorted(pools), f.span.loc())
     else:
         chk.fail("GUARD", "end-consistency/missing", "check_end_of_compact_block_consistency not found")
+
+
+def scope_coherence(chk, w):
+    """A scanning key recognises and nullifies the notes of ONE key scope: the scope its incoming
+    viewing key is derived for, the scope its nullifier key is derived for (where the pool's
+    nullifier key depends on the scope) and the scope it reports are the same value."""
+    SK = "zcash_client_backend::scanning::ScanningKey"
+    n = 0
+    for f in sorted(w.fns.values(), key=lambda f: f.p):
+        if "::tests::" in f.p or "::testing" in f.p or f.p.endswith("ScanningKey::<Ivk, Nk, AccountId>::new"):
+            continue
+        b = f.body
+        du = None
+        for blk in b.blocks:
+            if blk.cleanup:
+                continue
+            for s in blk.stmts:
+                if not (s.kind == "=" and s.rv.kind == "agg" and s.rv.agg[0] == "adt" and s.rv.agg[1] == SK):
+                    continue
+                if du is None:
+                    class _D(defuse.DefUse):
+                        MAXD = 80
+                    du = _D(b)
+                n += 1
+                src = {}
+                for fld, op in zip(s.rv.agg[3], s.rv.ops):
+                    if fld not in ("ivk", "nk", "key_scope"):
+                        continue
+                    txt = defuse.show(du.origin(op))
+                    loopel = re.findall(r"\(next\(&into_iter\(array\{(?:zip32::Scope::\w+\{\}(?:, )?)+\}\)\) as Some\)\.0", txt)
+                    rest = txt
+                    for x in set(loopel):
+                        rest = rest.replace(x, "LOOP")
+                    consts = re.findall(r"zip32::Scope::(\w+)\{\}", rest)
+                    locs = re.findall(r"\b(?:scope|key_scope)\b", rest)
+                    ss = set()
+                    if loopel:
+                        ss.add("the loop's scope")
+                    ss |= {"Scope::" + c for c in consts}
+                    src[fld] = ss
+                allsrc = set().union(*src.values()) if src else set()
+                key = "%s@%d" % (f.p.rsplit("::", 1)[-1], n)
+                if len(allsrc) <= 1 and src.get("ivk") and src.get("key_scope") == src.get("ivk"):
+                    chk.ok("SCOPE", "%s [%s]: ivk, nk and the reported key scope derive from %s"
+                           % (f.p.rsplit("::", 1)[-1], s.span.loc(), next(iter(allsrc)) if allsrc else "no scope"),
+                           sample=(n == 1))
+                else:
+                    chk.fail("SCOPE", key, "a scanning key mixes key scopes: ivk from %s, nk from %s, reported scope %s — "
+                             "notes are found under one scope and nullified under another" % (
+                                 sorted(src.get("ivk", [])), sorted(src.get("nk", [])), sorted(src.get("key_scope", []))),
+                             s.span.loc())
+    if n == 0:
+        chk.fail("SCOPE", "missing", "no construction of ScanningKey found")
 
 
 def order(chk, w):
